@@ -141,7 +141,7 @@ def big_lobbies(draw):
 PROPERTY = Property(
     pid="C04",
     clauses=[
-        Clause(name="permutation-equivariance", strategy=cases(), check=check_c04, quick=1500, thorough=30000,
+        Clause(name="permutation-equivariance", strategy=cases(), check=check_c04, quick=2500, thorough=40000,
                rule="one game; all n! team permutations for n <= 5 (24 drawn ones above), each combined with a drawn permutation of the players of every team; "
                     "partial pairing: only permutations keeping tied teams in order; non-trivial = n >= 3 and at least one non-identity permutation compared"),
         Clause(name="large-lobbies", strategy=big_lobbies(), check=check_c04, quick=160, thorough=3000,
